@@ -33,8 +33,10 @@ def c01(ctx, t0):
     res = []
     if want(ctx, 'history'):
         res.append(ctx.run_child('history', [hx, 'c01'], T(ctx, 300, 3000)))
+    if want(ctx, 'agent-history'):
+        res.append(ovl_stage(ctx, 'agent-history', 'TestVerifC01Agent', T(ctx, 300, 2400)))
     floors = {'auth_probes': (counters(res, 'auth_probes'), 100), 'nearmiss_probes': (counters(res, 'nearmiss_probes'), 100),
-              'equivalent_key_probes': (counters(res, 'equivalent_key_probes'), 1)}
+              'equivalent_key_probes': (counters(res, 'equivalent_key_probes'), 1), 'agent_auth_probes': (counters(res, 'agent_auth_probes'), 1000)}
     return finish(ctx, 'exploration', res, COMMON_ASSUME + [
         'reference model refstore/refschema (written from doc/SCHEMA.md) is the oracle; key equivalence of PBKDF2-HMAC is modelled by ref.Canon',
         'record timestamps are compared against a [call, return] bracket in whole seconds'], floors, t0)
@@ -325,11 +327,17 @@ def c20(ctx, t0):
 
 @plan('C04')
 def c04(ctx, t0):
-    ctx.build_agent()
+    ctx.build_agent(race=True)   # the served binary is a race-detector build; its reports are collected below
     hx = ctx.build_hx()
     res = []
     if want(ctx, 'frontends'):
-        res.append(ctx.run_child('frontends', [hx, 'c04'], T(ctx, 900, 5400)))
+        racelog = os.path.join(ctx.work, 'race-agent')
+        r = ctx.run_child('frontends', [hx, 'c04'], T(ctx, 900, 5400), extra_env={'VERIF_AGENT_BIN': 'whawty-auth-race', 'VERIF_AGENT_GORACE': 'halt_on_error=0 log_path=' + racelog})
+        nrep, vio, herr = runner.collect_races(racelog)
+        r['counters'] = r.get('counters') or {}
+        r['counters']['agent_race_reports'] = nrep
+        r['violations'] = (r.get('violations') or []) + vio
+        res.append(r)
     floors = {'verdicts:sasl': (counters(res, 'verdicts:sasl'), 200), 'verdicts:basic': (counters(res, 'verdicts:basic'), 200), 'verdicts:api': (counters(res, 'verdicts:api'), 150),
               'verdicts:ldap': (counters(res, 'verdicts:ldap'), 200), 'verdicts:cli': (counters(res, 'verdicts:cli'), 30), 'store_accepts': (counters(res, 'store_accepts'), 100),
               'concurrent_requests': (counters(res, 'concurrent_requests'), 500), 'internal_error_probes': (counters(res, 'internal_error_probes'), 20)}
